@@ -219,11 +219,12 @@ def census_corr(chk, mols):
     for tag, mol in mols:
         for cname in mol.conformation_names:
             conf = mol.conformations[cname]
-            ingroups = {id(g): g for g in conf.groups}
+            # (atom.group is not reliable: Group.__init__ re-points it, so after averaging it is the clone held by the AVR container)
+            by_atom = {id(g.atom): g for g in conf.groups}
             for a in conf.atoms:
                 if a.type != "atom" or a.element == "H":
                     continue
-                g = a.group if (getattr(a, "group", None) is not None and a.group.atom is a and id(a.group) in ingroups) else None
+                g = by_atom.get(id(a))
                 key = (a.res_name, a.name, a.terminal or "", a.count_bonded_elements("O") if a.name == "C" else 0, bool(a.cysteine_bridge))
                 real = None if g is None else (type(g).__name__[:-5], g.residue_type, (Fr(repr(float(g.model_pka))) if g.model_pka_set else None), bool(g.titratable))
                 if key in seen and seen[key][0] != real:
